@@ -10,6 +10,7 @@ import (
 	"hash/fnv"
 	"os"
 	"path/filepath"
+	"reflect"
 	"runtime/debug"
 	"sort"
 	"strings"
@@ -372,4 +373,37 @@ func sameMultiset(a, b []interface{}) bool {
 		}
 	}
 	return true
+}
+
+// valEqual is reflect.DeepEqual on decoded values except that NaN equals NaN.
+func valEqual(a, b interface{}) bool {
+	switch x := a.(type) {
+	case map[string]interface{}:
+		y, ok := b.(map[string]interface{})
+		if !ok || len(x) != len(y) || (x == nil) != (y == nil) {
+			return false
+		}
+		for k, v := range x {
+			w, ok := y[k]
+			if !ok || !valEqual(v, w) {
+				return false
+			}
+		}
+		return true
+	case []interface{}:
+		y, ok := b.([]interface{})
+		if !ok || len(x) != len(y) {
+			return false
+		}
+		for i := range x {
+			if !valEqual(x[i], y[i]) {
+				return false
+			}
+		}
+		return true
+	case float64:
+		y, ok := b.(float64)
+		return ok && (x == y || (x != x && y != y))
+	}
+	return reflect.DeepEqual(a, b)
 }
